@@ -114,6 +114,13 @@ pub struct Slot {
     pub since: Option<Instant>,
     pub episode: u64,
     pub case: Option<J>,
+    /// cheap form of a published case: the delivered bytes and the reader tape (turned into a
+    /// replayable case by `Check::raw_case` only if the watchdog needs it)
+    pub raw: Vec<u8>,
+    pub raw_tape: Vec<u32>,
+    pub has_raw: bool,
+    /// when the current episode started (every check; set by the scheduler)
+    pub ep_since: Option<Instant>,
 }
 
 pub struct Ctx<'a> {
@@ -130,10 +137,23 @@ impl<'a> Ctx<'a> {
         s.episode = episode;
         s.case = Some(case());
     }
+    /// Publish a delivery cheaply (no JSON is built unless the watchdog fires).
+    pub fn publish_raw(&self, episode: u64, bytes: &[u8], tape: &[u32]) {
+        let mut s = self.slot.lock().unwrap();
+        s.since = Some(Instant::now());
+        s.episode = episode;
+        s.case = None;
+        s.raw.clear();
+        s.raw.extend_from_slice(bytes);
+        s.raw_tape.clear();
+        s.raw_tape.extend_from_slice(tape);
+        s.has_raw = true;
+    }
     pub fn unpublish(&self) {
         let mut s = self.slot.lock().unwrap();
         s.since = None;
         s.case = None;
+        s.has_raw = false;
     }
 }
 
@@ -158,6 +178,10 @@ pub trait Check: Sync {
     /// whether a stuck call is this property's violation (C01) or a harness error
     fn hang_is_violation(&self) -> bool {
         false
+    }
+    /// explicit case for a delivery published with `Ctx::publish_raw`
+    fn raw_case(&self, bytes: &[u8], tape: &[u32]) -> J {
+        J::obj().set("deliver", crate::json::hex(bytes)).set("tape", tape.to_vec())
     }
 }
 
@@ -209,6 +233,11 @@ pub fn explore(check: &dyn Check, verif_seed: u64, tier: Tier, n: u64, workers: 
                             let seed = episode_seed(verif_seed, check.id(), idx);
                             let before = viols.len();
                             {
+                                {
+                                    let mut s = slots[w].lock().unwrap();
+                                    s.ep_since = Some(Instant::now());
+                                    s.episode = idx;
+                                }
                                 let mut ctx = Ctx { stats: &mut stats, slot: &slots[w], tier };
                                 // calls into rtcp-types are guarded inside the episode; an unwind that
                                 // reaches this point comes from the harness itself
@@ -218,6 +247,7 @@ pub fn explore(check: &dyn Check, verif_seed: u64, tier: Tier, n: u64, workers: 
                                     std::process::exit(2);
                                 }
                                 ctx.unpublish();
+                                slots[w].lock().unwrap().ep_since = None;
                             }
                             stats.episodes += 1;
                             if viols.len() > before {
@@ -241,9 +271,28 @@ pub fn explore(check: &dyn Check, verif_seed: u64, tier: Tier, n: u64, workers: 
             }
             for s in slots.iter() {
                 let s = s.lock().unwrap();
-                if let (Some(since), Some(case)) = (s.since, s.case.as_ref()) {
+                if let Some(since) = s.since {
                     if since.elapsed() > Duration::from_secs(hang_secs) {
-                        hang = Some((s.episode, case.clone()));
+                        if let Some(case) = s.case.as_ref() {
+                            hang = Some((s.episode, case.clone()));
+                        } else if s.has_raw {
+                            hang = Some((s.episode, check.raw_case(&s.raw, &s.raw_tape)));
+                        }
+                    }
+                }
+                // an episode that published nothing and does not finish: still never spin forever
+                if hang.is_none() {
+                    if let Some(ep) = s.ep_since {
+                        if s.since.is_none() && ep.elapsed() > Duration::from_secs(3 * hang_secs + 60) {
+                            println!(
+                                "# harness error: property {} episode {} (VERIF_SEED {}) did not finish within {}s and published no case; a call into rtcp-types probably does not return (termination is property C01's concern)",
+                                check.id(),
+                                s.episode,
+                                verif_seed,
+                                3 * hang_secs + 60
+                            );
+                            std::process::exit(2);
+                        }
                     }
                 }
             }
@@ -253,9 +302,10 @@ pub fn explore(check: &dyn Check, verif_seed: u64, tier: Tier, n: u64, workers: 
                 let mut oldest: Option<(Instant, u64, J)> = None;
                 for s in slots.iter() {
                     let s = s.lock().unwrap();
-                    if let (Some(since), Some(case)) = (s.since, s.case.as_ref()) {
+                    let case = s.case.clone().or_else(|| if s.has_raw { Some(check.raw_case(&s.raw, &s.raw_tape)) } else { None });
+                    if let (Some(since), Some(case)) = (s.since, case) {
                         if oldest.as_ref().map(|o| since < o.0).unwrap_or(true) {
-                            oldest = Some((since, s.episode, case.clone()));
+                            oldest = Some((since, s.episode, case));
                         }
                     }
                 }
@@ -298,7 +348,7 @@ fn report_hang_and_exit(check: &dyn Check, verif_seed: u64, (episode, case): (u6
         println!("# verdict: VIOLATION (hang) class={class}");
         std::process::exit(1);
     } else {
-        println!("# harness error: a call did not return (case written to {path})");
+        println!("# harness error: a call into rtcp-types did not return; termination is property C01's concern, this check cannot continue (case written to {path})");
         std::process::exit(2);
     }
 }
